@@ -84,7 +84,7 @@ type c03gen struct {
 
 var c03Idents = []string{"A", "b", "Rule1", "x_y", "_u", "Ünï", "日本", "aB9", "Z", "r٣", "whitespace", "EOF", "Expr", "term2"}
 var c03LabelNames = []string{"a", "bb", "lbl", "x1", "v_", "é", "first", "rest"}
-var c03Runes = []rune("abAZ09 _-^]\\\"'`{}[]()/*+?!&#%:;.,\n\t\r\x00\x7fé世😀  ßẞ")
+var c03Runes = []rune("abAZ09 _-^]\\\"'`{}[]()/*+?!&#%:;.,\n\t\r\x00\x7fé世😀  ßẞ\u0080\ud7ff\ue000\ufffd\uffff\U0010fffe\U0010ffff")
 
 func (g *c03gen) expr(depth int) *anode {
 	r := g.r
@@ -184,6 +184,7 @@ var c03CodeBits = []string{
 	"return nil, nil", "x := map[string]int{\"a\": 1}", "if a { b() } else { c() }", "s := \"}{\"", "t := `{{ raw } `", "r := '{'", "q := '\\''",
 	"// comment with } brace\n", "/* { unbalanced in comment */", "/** } **/", "/***/", "for { break }", "f(func() { g() })", "u := \"esc \\\" } quote\"", "\n\n", "\t", "é := 世",
 	"z := \"\\\\\"", "",
+	"switch r { case '\\\\', '{': f() }", "c := '\\\\'; d := '}'", "if r == '\\\\' || r == '\\'' || r == '{' { esc() }",
 }
 
 var c03SubsetCodeBits = []string{"return nil, nil", "if a { b() } else { c() }", "for { break }", "f(func() { g() })", "x := 1", "é := 世", "",
